@@ -17,9 +17,9 @@ WATCHDOG = {"quick": 900, "thorough": 3000}
 
 
 def cases(ctx):
-    for i in range(ctx.pick(1500, 50000)):
+    for i in range(ctx.pick(1500, 1000000)):
         yield "queries", {"seed": ctx.subseed("q", i)}
-    for i in range(ctx.pick(1800, 60000)):
+    for i in range(ctx.pick(1800, 1200000)):
         yield "indicators", {"seed": ctx.subseed("i", i)}
 
 
